@@ -5,6 +5,8 @@ package standard
 import (
 	"context"
 
+	"github.com/attestantio/go-block-relay/types"
+
 	apiv1 "github.com/attestantio/go-builder-client/api/v1"
 	"github.com/attestantio/go-eth2-client/spec/phase0"
 	"github.com/attestantio/vouch/internal/vnd"
@@ -47,4 +49,38 @@ func VerifC17_ConfigRefreshVsUsers() {
 	vnd.Cover("C17.config.overlap-explored")
 	_ = e2wtypes.Account(nil)
 	_ = vstub.ClientMonitor{}
+}
+
+// VerifC17_RegistrationsVsREST: a registration round (two accounts) overlapping
+// a builder-API registration request for another validator (what a beacon node
+// with Vouch as its builder sends): no unsynchronised conflicting accesses, and
+// the request sees the controlled set of before or after the round, not a
+// half-filled one.
+func VerifC17_RegistrationsVsREST() {
+	util.VerifResetBuilderClients()
+	relay := &c11Relay{name: c11RelayNames[0]}
+	util.VerifSetBuilderClient(relay.name, relay)
+	cfg := &c11Config{unresolvable: map[uint64]bool{}, relays: map[uint64][]string{1: {relay.name}, 2: {relay.name}, 3: {relay.name}}, settings: map[uint64]map[string]c11Setting{1: {}, 2: {}, 3: {}}}
+	accounts := map[phase0.ValidatorIndex]e2wtypes.Account{}
+	for i := 0; i < 2; i++ {
+		acc := &vstub.Account{Tag: uint64(i + 1), VIndex: uint64(i + 1), Nm: "acc"}
+		acc.Key.B[0] = byte(0x40 + i)
+		accounts[phase0.ValidatorIndex(i+1)] = acc
+	}
+	s := &Service{chainTime: vstub.NewChainTime(0), fallbackFeeRecipient: c12Fallback, fallbackGasLimit: 30000000,
+		validatorRegistrationSigner: &c11Signer{failFor: map[uint64]bool{}}, executionConfig: cfg,
+		latestValidatorRegistrations: map[phase0.BLSPubKey]phase0.Root{}, signedValidatorRegistrations: map[phase0.Root]*apiv1.SignedValidatorRegistration{},
+		controlledValidators: map[phase0.BLSPubKey]struct{}{}}
+	var theirs phase0.BLSPubKey
+	theirs[0] = 0x42
+	done := 0
+	go func() { _ = s.submitValidatorRegistrationsForAccounts(context.Background(), accounts); done++ }()
+	go func() {
+		_, _ = s.ValidatorRegistrations(context.Background(), []*types.SignedValidatorRegistration{{Message: &types.ValidatorRegistration{Pubkey: theirs, GasLimit: 1}},
+			{Message: &types.ValidatorRegistration{Pubkey: phase0.BLSPubKey{0x41}, GasLimit: 2}}})
+		done++
+	}()
+	left := vnd.Quiesce()
+	vnd.Assert(left == 0 && done == 2, "C17.registrations.everything-returns")
+	vnd.Cover("C17.registrations.overlap-explored")
 }
